@@ -18,6 +18,8 @@ FILES = [
      "bounded: one scripted shape of the local side per harness (<= 4 steps, chunks of 1-2 bytes); data bytes and credit symbolic; one or two polls"),
     ("penguin-mux/ping_verif_kani.rs", "penguin-mux", "model", "std,nohash,tokio-time",
      "complete over (timeout T incl. none, last-pong time, current time) in whole seconds; one tick per harness (the tick source is the tokio-time stand-in)"),
+    ("penguin-socks/v5_addr_verif_kani.rs", "penguin-socks", "model", "",
+     "bounded: concrete address type, length octet and chunking per instantiation; all other bytes symbolic (IPv6: two concrete addresses)"),
     ("penguin-socks/readers_verif_kani.rs", "penguin-socks", "model", "",
      "bounded: concrete field lengths and chunking per instantiation; all field contents symbolic"),
 ]
@@ -25,6 +27,11 @@ FILES = [
 DEFAULT_PROPS = {"penguin-mux/bridge_verif_kani.rs": ["C13"], "penguin-mux/ping_verif_kani.rs": ["C16"]}
 
 SOCKS_CONTRACT = [
+    ("c18_s5_addr_domain", "v5::read_address on ATYP=3: returns exactly the LEN domain bytes and consumes exactly ATYP, LEN and LEN bytes (whole, byte-wise and split deliveries, with Pending points)"),
+    ("c18_s5_addr_ipv4", "v5::read_address on ATYP=1: returns the dotted-quad text of the four octets (all octet values) and consumes exactly 5 bytes"),
+    ("c18_s5_addr_ipv6", "v5::read_address on ATYP=4: returns the RFC 5952 text and consumes exactly 17 bytes"),
+    ("c18_s5_addr_unknown_atyp", "v5::read_address on any other ATYP: AddressType error, the RFC 1928 'address type not supported' reply is written and flushed, nothing further consumed"),
+    ("c18_s5_addr_truncated", "every proper prefix of an address followed by end-of-file is an error: no Ok, no panic, no endless wait"),
     ("c18_s5_req_domain", "v5::read_request on a domain-type request returns (CMD, the LEN domain bytes, PORT) and consumes exactly the request"),
     ("c18_s5_req_ipv4", "v5::read_request on an IPv4 request returns the dotted-quad text of the 4 octets, CMD and PORT, and consumes exactly 10 bytes"),
     ("c18_s5_req_ipv6", "v5::read_request on an IPv6 request returns the RFC 5952 text, CMD and PORT, and consumes exactly 22 bytes"),
@@ -42,8 +49,20 @@ SOCKS_CONTRACT = [
 ]
 
 
+def fn_labels(src):
+    """labels asserted inside every fn of the file (name -> set of 'Cxx.label')"""
+    text = "\n".join(src)
+    res = {}
+    for m in re.finditer(r"(?m)^(?:pub\(crate\) )?fn (\w+)(?:<[^>]*>)?\(", text):
+        nxt = re.search(r"(?m)^(?:#\[|(?:pub\(crate\) )?fn |// ====)", text[m.end():])
+        body = text[m.end(): m.end() + (nxt.start() if nxt else len(text))]
+        res[m.group(1)] = (set(re.findall(r'"(C\d\d\.[\w.]+)', body)), set(re.findall(r"\b(\w+)(?:::<[^>]*>)?\(", body)))
+    return res
+
+
 def scan(path):
     src = open(path).read().split("\n")
+    allfns = fn_labels(src)
     out = []
     i = 0
     while i < len(src):
@@ -68,6 +87,11 @@ def scan(path):
                 body.append(src[k])
                 k += 1
             labels = re.findall(r'"(C\d\d)\.([\w.]+)', "\n".join(body))
+            if not labels:
+                # the harness instantiates a shared contract fn: take that fn's labels
+                for callee in allfns.get(name, (set(), set()))[1]:
+                    if callee in allfns and callee != name:
+                        labels += [tuple(l.split(".", 1)) for l in allfns[callee][0]]
             if is_harness:
                 out.append(dict(name=name, doc=" ".join(doc), props=sorted({p for p, _ in labels}),
                                 labels=sorted({p + "." + l for p, l in labels})))
